@@ -20,6 +20,10 @@ def Sys.step (beh : Behaviour) (st : TermState × VT) : Ev → TermState × VT
 def Sys.run (beh : Behaviour) (st : TermState × VT) (evs : List Ev) : TermState × VT :=
   evs.foldl (Sys.step beh) st
 
+theorem Sys.run_cons (beh : Behaviour) (st : TermState × VT) (ev : Ev) (evs : List Ev) :
+    Sys.run beh st (ev :: evs) = Sys.run beh (Sys.step beh st ev) evs := rfl
+theorem Sys.run_nil (beh : Behaviour) (st : TermState × VT) : Sys.run beh st [] = st := rfl
+
 /-- domain of the output-side properties, relative to the library state (declared size, rendition known) -/
 def Op.WF (s : TermState) : Op → Prop
   | .writeElement e => e.wf = true
